@@ -5,7 +5,7 @@ from vlib.latcheck import Built
 from vlib.oracle import positions
 
 PROPERTY = 'C10'
-RULE = ('cases are context tables (plus Hypothesis tables wider than a machine word: 1-6 x 60-140 and transposed): exhaustive n*m <= 12 (quick) / <= 16 + 4x5, 5x4 + multisets (thorough) and '
+RULE = ('cases are context tables (plus Hypothesis tables wider than a machine word: 1-6 x 60-320 and transposed): exhaustive n*m <= 12 (quick) / <= 16 + 4x5, 5x4 + multisets (thorough) and '
         'Hypothesis fill families (duplicate rows/columns, full rows, empty and full columns are explicit '
         'perturbations) x all concepts. Oracle: concept.objects of concept k == the objects whose reference object '
         'concept (o\'\', o\') is k, in context order (so each object labels exactly one concept), likewise '
